@@ -10,7 +10,11 @@ SPEC = {
     "rule": "case = one twin pair whose tx was included; distinct_nontrivial = distinct (tx type, target relation, sender status) triples",
     "jobs": [Job("chain", "verifsim", "^TestVerifC05$", shards=(8, 16), timeout=(900, 3600))],
     "floors": {"twin_triples_failed_midway_then_succeeded": 200, "twin_sequences_failed_midway_then_succeeded": 200, "relation:own-invitee": 3, "relation:own-delegator": 2, "relation:contract": 10, "relation:god": 10, "relation:undefined": 20,
-               "relation:self": 2, "relation:identity": 20, "twin_type:KillInvitee": 2, "twin_type:KillDelegator": 2, "twin_type:Call": 5, "attempted_relation:pending-delegator-of-signer": 30, "attempted_relation:foreign-delegator": 5, "attempted_relation:foreign-invitee": 5},
+               "relation:self": 2, "relation:identity": 20, "twin_type:KillInvitee": 2, "twin_type:KillDelegator": 2, "twin_type:Call": 5, "attempted_relation:pending-delegator-of-signer": 30, "attempted_relation:foreign-delegator": 5, "attempted_relation:foreign-invitee": 5,
+               "attempted:forged:signature-bytes-copied-from-a-tx-of-the-victim": 400, "attempted:forged:unrecoverable-signature-spends-the-zero-wallet": 800,
+               "inviter_story_inviters_with_3_or_more_activated_invitees": 3, "attempted:relation:KillInvitee/by-former-inviter-that-terminated-itself": 12},
     "parallel": 16,
-    "assumptions": ["consensus config V12"],
+    "assumptions": ["consensus config V12",
+                    "the signer of a transaction is recovered by the harness with the crypto primitives (crypto.SignatureHash + Ecrecover), not with types.Sender",
+                    "reading of 'an inviter terminating its own invitee': the relationship the ledger records (Identity.Inviter of the target), except that an identity that terminated itself is no longer the inviter of invitees that had activated their invitation (KillTx severs the links with everybody on the inviter's invitee list). Observed and NOT counted as a violation: invitations that were never activated are not on that list, so on the unchanged tree a terminated identity can still send KillInviteeTx to them (and destroy stake somebody added to such an invitation) - the ledger still names it as their inviter"],
 }
